@@ -10,7 +10,7 @@ from .. import pb
 
 ID = "C10"
 ORACLE = "Oracle.C10"
-PROPS = "Props/C10.v"
+PROPS = ["Props/C10.v", "Props/C10gen.v"]
 LEVEL = "proof"
 SHARD = 14          # ~1500 rationals per pure case -> shards stay well below 1 MB of Gallina
 
